@@ -95,6 +95,10 @@ func (c *MJAccordionComponent) Render(w io.StringWriter) error {
 			if err := accordionElement.Render(w); err != nil {
 				return err
 			}
+		} else if raw, ok := child.(*MJRawComponent); ok {
+			if err := raw.Render(w); err != nil {
+				return err
+			}
 		}
 	}
 
@@ -325,6 +329,10 @@ func (c *MJAccordionElementComponent) Render(w io.StringWriter) error {
 			}
 		case *MJAccordionTextComponent:
 			if err := c.renderContent(w, ch); err != nil {
+				return err
+			}
+		case *MJRawComponent:
+			if err := ch.Render(w); err != nil {
 				return err
 			}
 		}
